@@ -6,7 +6,7 @@ type C01Case struct {
 	End        string   `json:"end"`     // open | close | exit  (what the "process" does after writing)
 	Allowed    []string `json:"allowed"` // nil => AllowedProtocols left nil
 	Sets       string   `json:"sets"`    // legacy1 | versioned12 | v0 | both123
-	TLS        string   `json:"tls"`     // none | static | auto
+	TLS        string   `json:"tls"`     // none | static | static-roots (a static TLSConfig with RootCAs of its own) | auto
 	Mux        bool     `json:"mux"`
 	TimeoutMs  int      `json:"timeoutMs"`
 	Real       bool     `json:"real"` // through a real subprocess and cmdrunner
